@@ -505,6 +505,36 @@ func ReplayStore(id int, d StoreDims, steps []StoreStep) (res Result) {
 			}
 			err = s.coll.ExecuteBatch(b, moss.WriteOptions{})
 			b.Close()
+			if err == nil && d.Kids && a.N%3 == 0 {
+				// every third batch the mirror child collection is deleted and created again with the content it
+				// must have now (two more batches, persisted by the same round): a new incarnation whose segments
+				// start afresh, so that older footers of the history hold segments the newer ones do not
+				for phase := 0; phase < 2 && err == nil; phase++ {
+					b2, e := s.coll.NewBatch(0, 0)
+					if e != nil {
+						err = e
+						break
+					}
+					if phase == 0 {
+						err = b2.DelChildCollection("kid")
+					} else {
+						kb2, e := b2.NewChildCollectionBatch("kid", moss.BatchOptions{})
+						if e != nil {
+							err = e
+						} else {
+							for k, n := range exp.Co {
+								if n != 0 {
+									kb2.Set(s.keyBytes(k+1), s.valBytes(n))
+								}
+							}
+						}
+					}
+					if err == nil {
+						err = s.coll.ExecuteBatch(b2, moss.WriteOptions{})
+					}
+					b2.Close()
+				}
+			}
 			sr.Mismatches = append(sr.Mismatches, s.checkColl(exp.Co, "coll")...)
 		case "Begin":
 			var a struct {
